@@ -26,6 +26,9 @@ pub struct MemOpts {
     pub write_fault: Option<(usize, ErrorKind)>,
     /// the client's byte stream, replacing the rendered conversation (byte-level edits)
     pub raw: Option<Arc<Vec<u8>>>,
+    /// every k-th read / write of the transport reports a transient `Interrupted` (0 = never)
+    pub read_intr: usize,
+    pub write_intr: usize,
 }
 
 #[derive(Clone, Copy, Debug, PartialEq, Eq, serde::Serialize, serde::Deserialize)]
@@ -88,6 +91,12 @@ pub fn run_mem(case: &ConvCase, opts: &MemOpts) -> Observation {
     let (client, conn) = rt::mem::pair();
     if let Some((limit, kind)) = opts.write_fault {
         client.set_write_fault(limit, kind);
+    }
+    if opts.read_intr > 0 {
+        client.set_read_interrupts(opts.read_intr);
+    }
+    if opts.write_intr > 0 {
+        client.set_write_interrupts(opts.write_intr);
     }
     let sent_when_msg = Arc::new(StdMutex::new(vec![]));
     let sent_now = Arc::new(std::sync::atomic::AtomicUsize::new(0));
